@@ -113,6 +113,11 @@ func (f Valuer) Value() (driver.Value, error) {
 		if isZero(f.value) {
 			return nil, nil
 		}
+		// A filter may pass the column value as a pointer; a pointer to the zero
+		// value denotes the same implicitly-NULL column value as the zero value.
+		if f.value.Kind() == reflect.Ptr && isZero(f.value.Elem()) {
+			return nil, nil
+		}
 	}
 
 	// At this point we have already handled `nil` above, so we can assume that all
